@@ -951,9 +951,9 @@ def _fit_variants(base, n, c, i, fam):
             yield var("neighbour:array_weights",
                       fit_descs=descs_with(i, {"method": ["str", "wlsq"], "weights": ["array"]}))
     # the same table handed over in the other array-like forms `fit` documents (np.array(data) is what counts)
-    # (the conversion happens before any family-specific code: run with the cheaply fitted carriers only)
+    # (the conversion happens before any family-specific code: run with the carriers that have closed-form fits)
     for form in TABLE_FORMS[1:]:
-        if fam in CHEAP and (n <= 2 or (TABLE_FORMS.index(form) + i) % 2 == 0):
+        if fam in ("Normal", "LogNormal", "LogNormalNormFit") and (n <= 2 or (TABLE_FORMS.index(form) + i) % 2 == 0):
             yield var("neighbour:data_form", data_form=form)
     # malformed
     for dd in ([n - 1] if n > 1 else []) + [n + 1]:
@@ -987,7 +987,7 @@ def _fit_variants(base, n, c, i, fam):
                 if d["cond"] is not None:
                     d["dep"] = [p for p in d["dep"] if p not in fx]
                 yield x
-            if not ok:  # ... maximum likelihood has no such restriction
+            if fx == ["alpha", "delta"]:  # ... maximum likelihood has no such restriction
                 x = var("neighbour:mle_fixed", fit_descs=descs_with(i, {"method": ["str", "mle"]}))
                 d = x["dims"][i]
                 d["fixed"] = list(fx)
